@@ -23,6 +23,43 @@ class DC:
 NT = namedtuple("NT", "x y")
 
 
+class Money:
+    """a user type registered with a custom encoder/decoder (never picklable: carries a lock)"""
+    def __init__(self, a):
+        import threading
+        self.a = a
+        self._lock = threading.Lock()
+
+    def __eq__(self, other):
+        return type(other) is Money and other.a == self.a
+
+    def __repr__(self):
+        return f"Money({self.a})"
+
+    def __reduce__(self):
+        raise TypeError("cannot pickle Money")
+
+
+def register_money(rec):
+    from cashews.serialize import register_type
+
+    async def enc(value, *a, **k):
+        r = str(value.a).encode()
+        rec["cenc"].append((value, "Money", r))
+        return r
+
+    async def dec(value, *a, **k):
+        r = Money(int(value))
+        rec["cenc"].append((r, "Money", value))
+        return r
+    register_type(Money, enc, dec)
+
+
+def unregister_money():
+    from cashews.serialize import Serializer
+    Serializer._type_mapping.pop(b"Money", None)
+
+
 def lat(b: bytes) -> str:
     return b.decode("latin1")
 
@@ -65,7 +102,7 @@ def make(config):
     ptype = {"default": PicklerType.DEFAULT, "json": PicklerType.JSON, "null": PicklerType.NULL}[config["pickler"]]
     ser = get_serializer(secret=config.get("secret_value", SECRET) if config["secret"] else None, digestmod=config["digest"], pickle_type=ptype)
     base = ser._pickler
-    rec = {"dumps": [], "loads": [], "macs": []}
+    rec = {"dumps": [], "loads": [], "macs": [], "cenc": []}
 
     class Rec(base):  # keeps UnpicklingError of the configured pickler
         @staticmethod
@@ -115,6 +152,10 @@ def tables(rec, ids):
         lt.append((S(lat(b)), C("LOk", ids.coq(r)) if cls == "LOk" else C(cls)))
     mt = [(((S(a), S(b)), S(c)), S(d)) for a, b, c, d in rec["macs"]]
     return dt, lt, mt
+
+
+def ctable(rec, ids):
+    return [((ids.coq(v), S(ty)), S(lat(e))) for v, ty, e in rec.get("cenc", [])]
 
 
 def dres(r, ids):
